@@ -35,6 +35,7 @@ pub async fn sweep(h: &mut Hyb, via: &'static str) -> Vec<Res> {
 
 pub async fn end_of_workload(h: &mut Hyb) {
     let prop = h.case.property.clone();
+    h.unhold_flush();
     match prop.as_str() {
         "C07" => {
             if h.cache.is_some() && !ST.with(|s| s.borrow().closed) {
